@@ -15,6 +15,9 @@ CLAIMED = {
  'C08': dict(
     text='Bounded symbolic model checking of kernels of the pipeline in a checked build (overflow checks and debug assertions on), every finding confirmed through the public API: (1) the bytecode compiler + VM on `x!…!` with the number of "!" symbolic (1..2^20) against a reference multifactorial: no panic, no budget overrun, the written order is used; (2) run-time unit exponent arithmetic (Unit::power, multiplication + canonicalisation) and (3) the checker\'s dimension exponent arithmetic (DType::try_* must not panic; the unchecked variants) with symbolic exponents up to 2^126. A kernel finding is reported only if the same inputs submitted as source text to Context::interpret abort, hang or misbehave natively; two genuine overflow defects are listed as known findings. The exponent kernels are bounded explorations (bug hunting), stated as such.',
     design_ref='DESIGN.md §4 C08', technique='symbolic execution of LLVM IR + SMT (z3 QF_BV/QF_FPBV) on kernels, public-API replay of every model'),
+ 'C09': dict(
+    text='Bounded symbolic model checking through the whole real pipeline: 23 program templates (shadowed globals read from functions and where-clauses, parameters shadowing globals, where-clause locals, argument order, nested conditionals, negated comparisons, && / || / !, bounded recursion, function values, reverse application, struct field order and nested access, list head/tail/cons/len, string interpolation order, division by zero) are interpreted by a real session with every scalar literal a symbolic double injected through the __verif_sym hook; on every feasible path the produced value must equal, bit for bit, the value of a reference evaluator that applies the language rules to the template directly. The solver explores every branch combination of the compiled bytecode (jump patching, local/global slot selection, call frames, struct/list/string construction) for all values, including NaN, infinities and signed zeros.',
+    design_ref='DESIGN.md §4 C09', technique='symbolic execution of LLVM IR (whole interpreter pipeline) + SMT (z3 QF_FPBV), reference-evaluator differential, native replay'),
  'C10': dict(
     text='Bounded symbolic model checking of the compiled parser: Parser::parse runs on token streams whose token kinds are symbolic (37-kind expression alphabet), next to an independent table-driven reference parser transcribed from the documented precedence table; on every feasible path either both reject the sequence or the two syntax trees are structurally identical. Exhaustive over all sequences up to the stated length, plus longer templates (three- and four-operand expressions, conditionals, unary/postfix combinations, parentheses, calls) whose operator positions are symbolic over all 23 operators. All-sequences-within-a-bound is the right level because a precedence or associativity slip shows only for a particular pair of operators in a particular arrangement.',
     design_ref='DESIGN.md §4 C10', technique='symbolic execution of LLVM IR + SMT (z3 QF_BV), replay-mode path exploration, reference-parser differential'),
